@@ -510,3 +510,23 @@ Proof.
     destruct (negb (bytes_eqb (vk_name rq) [114])); inversion M; subst; repeat constructor; simpl; lia.
   - eexists. vm_compute. reflexivity.
 Qed.
+
+(* hypotheses of the conflict-soundness statements are satisfiable: a client that knows no version of
+   anything; the root requires a; the direct dependencies are reported unsatisfiable *)
+Lemma example_initial_conflict :
+  let cm := fun _ : vkey => Ok ([] : list vkey) in
+  let cr := fun _ : vkey => Ok [mkrq (bs "a") 2 (bs "") []] in
+  let root := mkvk (bs "r") 1 (bs "1") in
+  (forall pre rq l, gm (fun _ => Err 0) cm (fun _ => true) (fun _ => true) (fun _ _ => false) (fun _ _ => false) root pre rq = Ok l ->
+                    StronglySorted ex_lt l) /\
+  init_criteria (fun _ => Err 0) cm (fun _ => true) (fun _ => true) (fun _ _ => false) (fun _ _ => false) root
+                empty_state [mkrq (bs "a") 2 (bs "") []] = Err EImpossible.
+Proof.
+  intros cm cr root. split.
+  - intros pre rq l H.
+    assert (M : matching_versions cm root rq = Ok l).
+    { unfold gm, matching_versions_pre in H. destruct pre; auto. }
+    unfold matching_versions, cm in M. simpl in M.
+    destruct (negb _); inversion M; subst; constructor.
+  - vm_compute. reflexivity.
+Qed.
